@@ -65,6 +65,121 @@ fn pc(names: &[&str], file: &str, kij: Option<f64>) -> Arc<PcSaftParameters> {
     Arc::new(from_json_str::<PcSaftParameters>(&shipped(file, names), &bin))
 }
 
+
+/// every pure record of a shipped PC-SAFT file as (index, name, class, one-record JSON list)
+fn pcsaft_records(file: &str) -> Vec<(usize, String, String, String)> {
+    let txt = std::fs::read_to_string(ppath(&format!("pcsaft/{}", file))).unwrap_or_default();
+    let recs: Vec<Value> = serde_json::from_str(&txt).unwrap_or_default();
+    recs.iter().enumerate().map(|(i, r)| {
+        let mr = &r["model_record"];
+        let g = |k: &str| mr.get(k).and_then(|v| v.as_f64()).unwrap_or(0.0);
+        let m = g("m");
+        let class = format!("m{}{}{}{}{}", if m <= 1.0001 { "1" } else if m <= 2.0 { "<=2" } else { ">2" },
+            if g("mu") != 0.0 { "/dipole" } else { "" }, if g("q") != 0.0 { "/quadrupole" } else { "" },
+            if mr.get("kappa_ab").is_some() { "/assoc" } else { "" },
+            if mr.get("kappa_ab").is_none() && (mr.get("na").is_some() || mr.get("nb").is_some()) { "/sites-only" } else { "" });
+        let name = r["identifier"]["name"].as_str().or(r["identifier"]["iupac_name"].as_str()).or(r["identifier"]["cas"].as_str()).unwrap_or("?").to_owned();
+        (i, name, class, serde_json::to_string(&vec![r.clone()]).unwrap())
+    }).collect()
+}
+
+/// Sweep over shipped pure PC-SAFT records: functional (every FMT version) vs equation of state, and the single-component functional
+/// (specialised code path) vs the same substance written as a binary mixture of two identical components (general code path).
+fn record_sweep(tr: &mut Tr, rng: &mut Rng, thorough: bool) {
+    for file in ["gross2001.json", "gross2002.json", "gross2005_fit.json", "gross2005_literature.json", "gross2006.json", "loetgeringlin2018.json", "rehner2020.json", "esper2023.json"] {
+        let recs = pcsaft_records(file);
+        let mut chosen: Vec<usize> = vec![];
+        if thorough {
+            chosen = (0..recs.len()).collect();
+        } else {
+            // two records of every structural class + a seeded sample
+            let mut seen: std::collections::HashMap<String, usize> = Default::default();
+            let mut order: Vec<usize> = (0..recs.len()).collect();
+            rng.shuffle(&mut order);
+            for &i in &order {
+                let c = seen.entry(recs[i].2.clone()).or_insert(0);
+                if *c < 2 { *c += 1; chosen.push(i); }
+            }
+            for &i in order.iter().take(12) { if !chosen.contains(&i) { chosen.push(i); } }
+        }
+        for i in chosen {
+            let (idx, name, class, js) = &recs[i];
+            let Ok(p) = guarded(std::panic::AssertUnwindSafe(|| Arc::new(from_json_str::<PcSaftParameters>(js, &[])))) else {
+                tr.ev(json!({"ev":"Skip","pair":format!("{}[{}]", file, idx),"why":"record does not load"})); continue };
+            let eos = Arc::new(PcSaft::new(p.clone()));
+            // temperature scale: the critical temperature of the record (association and polarity move it far from epsilon/k)
+            let ts = guarded(std::panic::AssertUnwindSafe(|| State::critical_point(&eos, None, None, Default::default()).ok().map(|s| s.temperature.to_reduced())))
+                .ok().flatten().unwrap_or(1.6 * p.epsilon_k[0] * (1.0 + 0.12 * (p.m[0] - 1.0)));
+            let tag = format!("{}[{}]:{}:{}", file, idx, name, class);
+            for (vn, ver) in [("WhiteBear", FMTVersion::WhiteBear), ("KierlikRosinberg", FMTVersion::KierlikRosinberg), ("AntiSymWhiteBear", FMTVersion::AntiSymWhiteBear)] {
+                let f = Arc::new(PcSaftFunctional::new_full(p.clone(), ver));
+                pair(tr, &format!("PcSaftFunctional({})/PcSaft:{}", vn, tag), "bulk", &f, &eos, ts, rng, 2);
+            }
+            // pure (specialised) vs duplicated binary (general) functional and equation of state, at the same total amounts
+            let one: Vec<Value> = serde_json::from_str(js).unwrap();
+            let mut two = one.clone();
+            let mut second = one[0].clone();
+            second["identifier"] = json!({"name": "copy"});
+            two.push(second);
+            if let Ok(p2) = guarded(std::panic::AssertUnwindSafe(|| Arc::new(from_json_str::<PcSaftParameters>(&serde_json::to_string(&two).unwrap(), &[])))) {
+                let f1 = Arc::new(PcSaftFunctional::new(p.clone()));
+                let f2 = Arc::new(PcSaftFunctional::new(p2.clone()));
+                let e2 = Arc::new(PcSaft::new(p2.clone()));
+                for _ in 0..2 {
+                    let t = ts * rng.lrange(0.5, 2.5);
+                    let ntot = rng.lrange(0.5, 4.0);
+                    let rmax = eos.compute_max_density(&Array1::from_vec(vec![ntot]));
+                    let v = ntot / (rmax * rng.lrange(1e-3, 0.8));
+                    let a = rng.range(0.1, 0.9);
+                    let r = guarded(std::panic::AssertUnwindSafe(|| (obs(&f1, t, v, &[ntot]), obs(&f2, t, v, &[a * ntot, (1.0 - a) * ntot]), obs(&e2, t, v, &[a * ntot, (1.0 - a) * ntot]))));
+                    match r {
+                        Ok((x, y, z)) => tr.ev(json!({"ev":"Split","pair":format!("PcSaftFunctional pure/duplicated:{}", tag),"class":"bulk","T":fs(t),"V":fs(v),"N":fs(ntot),"a":fs(a),
+                            "pure":x,"dup_functional":y,"dup_eos":z})),
+                        Err(msg) => tr.ev(json!({"ev":"Panic","pair":format!("PcSaftFunctional pure/duplicated:{}", tag),"msg":msg})),
+                    }
+                }
+            }
+        }
+    }
+}
+
+/// Binary mixtures of shipped pure PC-SAFT records (every structural class paired with every other): functional vs equation of state.
+fn mixture_sweep(tr: &mut Tr, rng: &mut Rng, thorough: bool) {
+    let mut all: Vec<(String, usize, String, String, String)> = vec![];
+    for file in ["gross2001.json", "gross2002.json", "gross2005_fit.json", "gross2006.json", "rehner2020.json", "esper2023.json"] {
+        for (i, name, class, js) in pcsaft_records(file) { all.push((file.to_owned(), i, name, class, js)); }
+    }
+    let mut by_class: std::collections::BTreeMap<String, Vec<usize>> = Default::default();
+    for (k, r) in all.iter().enumerate() { by_class.entry(r.3.split_once('/').map(|x| x.1.to_owned()).unwrap_or_default()).or_default().push(k); }
+    let classes: Vec<String> = by_class.keys().cloned().collect();
+    let mut pairs: Vec<(usize, usize)> = vec![];
+    for a in 0..classes.len() { for b in a..classes.len() {
+        for _ in 0..(if thorough { 6 } else { 1 }) {
+            let i = *rng.pick(&by_class[&classes[a]]); let j = *rng.pick(&by_class[&classes[b]]);
+            if i != j { pairs.push((i, j)); }
+        }
+    } }
+    for (i, j) in pairs {
+        let (a, b) = (&all[i], &all[j]);
+        let mut recs: Vec<Value> = serde_json::from_str(&a.4).unwrap();
+        recs.extend(serde_json::from_str::<Vec<Value>>(&b.4).unwrap());
+        recs[0]["identifier"] = json!({"name": "first"});
+        recs[1]["identifier"] = json!({"name": "second"});
+        let kij = format!("{{\"k_ij\":{}}}", rng.range(-0.03, 0.05));
+        let Ok(p) = guarded(std::panic::AssertUnwindSafe(|| Arc::new(from_json_str::<PcSaftParameters>(&serde_json::to_string(&recs).unwrap(), &[((0, 1), kij.as_str())])))) else { continue };
+        let nq = [a, b].iter().filter(|r| r.3.contains("quadrupole")).count();
+        let nd = [a, b].iter().filter(|r| r.3.contains("dipole")).count();
+        let na = [a, b].iter().filter(|r| r.3.contains("assoc") || r.3.contains("sites-only")).count();
+        let tag = format!("mix:{}[{}]:{}+{}[{}]:{}|dipoles={}|quadrupoles={}|associating={}", a.0, a.1, a.2, b.0, b.1, b.2, nd, nq, na);
+        let eos = Arc::new(PcSaft::new(p.clone()));
+        let ts = 1.9 * (p.epsilon_k[0] * (1.0 + 0.12 * (p.m[0] - 1.0)) + p.epsilon_k[1] * (1.0 + 0.12 * (p.m[1] - 1.0))) * if na > 0 { 1.6 } else { 1.0 };
+        for (vn, ver) in [("WhiteBear", FMTVersion::WhiteBear), ("KierlikRosinberg", FMTVersion::KierlikRosinberg)] {
+            let f = Arc::new(PcSaftFunctional::new_full(p.clone(), ver));
+            pair(tr, &format!("PcSaftFunctional({})/PcSaft:{}", vn, tag), "bulk", &f, &eos, ts, rng, 2);
+        }
+    }
+}
+
 pub fn run(args: &Args) {
     let mut tr = Tr::create(&args.out);
     let mut rng = Rng::new(args.seed ^ 0x08);
@@ -100,6 +215,8 @@ pub fn run(args: &Args) {
         let ig: Arc<EquationOfState<IdealGasModel, ResidualModel>> = zoo::with_ideal_gas(&wrapped, eos.components());
         pair(&mut tr, &format!("EquationOfState(Joback,ResidualModel)/PcSaft:{}", nm), "wrapper", &ig, &eos, *ts, &mut rng, k);
     }
+    record_sweep(&mut tr, &mut rng, args.thorough);
+    mixture_sweep(&mut tr, &mut rng, args.thorough);
     // gc-PC-SAFT functional vs EoS (same segment files)
     for names in [vec!["propane"], vec!["ethanol", "hexane"], vec!["pentane", "1-propanol"], vec!["methanol"], vec!["1-butanol", "heptane"]] {
         let args3 = (ppath("pcsaft/gc_substances.json"), ppath("pcsaft/sauer2014_hetero.json"), Some(ppath("pcsaft/rehner2023_hetero_binary.json")));
